@@ -913,4 +913,98 @@ theorem cands_complete {m : Mesh} {svcs : List Svc} {cfgNs : String} {ps : List 
       rw [mem_isort, List.mem_filter]
       exact ⟨hlooked, hcv⟩
 
+/-! ### ports -/
+
+theorem mergePorts_sub (ex new : List Port) : ∀ p ∈ ex, p ∈ mergePorts ex new := by
+  unfold mergePorts
+  induction new generalizing ex with
+  | nil => intro p hp; exact hp
+  | cons a t ih =>
+    intro p hp
+    rw [List.foldl_cons]
+    apply ih
+    split
+    · exact hp
+    · exact List.mem_append_left _ hp
+
+theorem mergePorts_cover (ex new : List Port) : ∀ p ∈ new, ∃ q ∈ mergePorts ex new, q.num = p.num := by
+  unfold mergePorts
+  induction new generalizing ex with
+  | nil => intro p hp; simp at hp
+  | cons a t ih =>
+    intro p hp
+    rw [List.foldl_cons]
+    rcases List.mem_cons.mp hp with hp | hp
+    · subst hp
+      -- after the step some port with p's number is in the accumulator, and stays
+      have hstep : ∃ q ∈ (if ex.any (·.num == p.num) then ex else ex ++ [p]), q.num = p.num := by
+        split
+        · rename_i h
+          obtain ⟨q, hq, hqn⟩ := List.any_eq_true.mp h
+          exact ⟨q, hq, by simpa using hqn⟩
+        · exact ⟨p, by simp, rfl⟩
+      obtain ⟨q, hq, hqn⟩ := hstep
+      exact ⟨q, mergePorts_sub _ t q hq, hqn⟩
+    · exact ih _ p hp
+
+theorem canMerge_of_core {a b : Svc} (h : a.core = b.core) : canMerge a b = true := by
+  have h1 := core_ns h
+  have h2 : a.resolution = b.resolution := by have := congrArg Svc.resolution h; exact this
+  have h3 := core_k8s h
+  have h4 : a.attr = b.attr := by have := congrArg Svc.attr h; exact this
+  have h5 : a.exportTo = b.exportTo := by have := congrArg Svc.exportTo h; exact this
+  unfold canMerge
+  simp [h1, h2, h3, h4, h5, List.all_eq_true]
+
+theorem importOne_none_ports {ps : List PHost} {c s : Svc} (h : importOne ps none c = some s) : s.ports = c.ports := by
+  simp only [importOne] at h
+  split at h
+  · cases h
+  · have key : ∀ hc : HostClass, matchingAliasService hc (matchingService hc c none) = some s → s.ports = c.ports := by
+      intro hc hm
+      obtain ⟨x, hx, _, h2, _⟩ := matchingAlias_some hm
+      unfold matchingService at hx
+      split at hx
+      · simp at hx; subst hx; exact h2
+      · cases hx
+    cases hns : hcFor ps c.ns with
+    | none =>
+      simp only [hns] at h
+      cases hw : hcFor ps "*" with
+      | none => simp [hw] at h
+      | some hcw => simp only [hw] at h; exact key hcw h
+    | some hcn =>
+      simp only [hns] at h
+      cases hm : matchingAliasService hcn (matchingService hcn c none) with
+      | some r => simp only [hm] at h; cases h; exact key hcn hm
+      | none =>
+        simp only [hm] at h
+        cases hw : hcFor ps "*" with
+        | none => simp [hw] at h
+        | some hcw => simp only [hw] at h; exact key hcw h
+
+theorem nodup_hostname_eq {acc : List Svc} (h : (acc.map (·.hostname)).Nodup) {a b : Svc}
+    (ha : a ∈ acc) (hb : b ∈ acc) (hab : a.hostname = b.hostname) : a = b := by
+  induction acc with
+  | nil => simp at ha
+  | cons x t ih =>
+    simp only [List.map_cons, List.nodup_cons, List.mem_map, not_exists, not_and] at h
+    rcases List.mem_cons.mp ha with ha1 | ha1
+    · rcases List.mem_cons.mp hb with hb1 | hb1
+      · rw [ha1, hb1]
+      · exact absurd (by rw [← hab, ha1]) (h.1 b hb1)
+    · rcases List.mem_cons.mp hb with hb1 | hb1
+      · exact absurd (by rw [hab, hb1]) (h.1 a ha1)
+      · exact ih h.2 ha1 hb1
+
+theorem mem_replaceHost_other {acc : List Svc} {n e : Svc} (he : e ∈ acc) (hne : e.hostname ≠ n.hostname) :
+    e ∈ replaceHost acc n := by
+  simp only [replaceHost, List.mem_map]
+  exact ⟨e, he, by simp [hne]⟩
+
+theorem mem_replaceHost_new {acc : List Svc} {n ex : Svc} (hex : ex ∈ acc) (hh : ex.hostname = n.hostname) :
+    n ∈ replaceHost acc n := by
+  simp only [replaceHost, List.mem_map]
+  exact ⟨ex, hex, by simp [hh]⟩
+
 end IstioModel.C07
